@@ -34,6 +34,10 @@ UNPROVED = ["totality of the metric bodies on valid input is a theorem for the v
             "C14_Key is about MirModel/Key.lean's validateKey (regenerated from the source by the scalars_key "
             "translator part of C04); that it equals the validator model keyValidateKey of Props/C14.lean is compared "
             "(both against the real validate_key), not proved"]
+# the validators are also REGENERATED from the source (harness/translate/validators.py -> lean/MirGen/Validators.lean) and
+# proved equal to the hand-written model (Props/C14_GenVal.lean, picked up by the glob above); suite
+# `validators.gen_validators` runs the generated definitions (driver op `gen.validators`) against the real validators
+TRANSLATOR_PARTS = ["validators"]
 SUITES, _cl = SU.load_all(only=["validators"])
 
 
